@@ -2,7 +2,7 @@
 """tools/autoref.py <transformation>  -- apply one mechanical, behaviour-preserving rewrite to EVERY module of /repo/src/soundevent (in
 memory) and run all 20 checks on the result; prints the checks that report or lose their footing (none is the expected answer).
 Transformations: or2ifexp, isnotnone, swapifelse, guard2nested, returntemp, early2else, append2aug, flipcmp, demorgan, kw2spread,
-comp2loop, comp2temp, renamelocals, ifexp2stmt, chaincmp, notin, sortkw, dict2call, isinstsplit, fstr2format, pos2kw, inlinetemp, unpacksplit.  A development aid, not part of any registered check."""
+comp2loop, comp2temp, renamelocals, ifexp2stmt, chaincmp, notin, sortkw, dict2call, isinstsplit, fstr2format, pos2kw, inlinetemp, unpacksplit, max2ifexp, range2while, fstr2join.  A development aid, not part of any registered check."""
 import ast, os, sys, importlib, copy
 sys.path.insert(0,'/verif')
 from sa.cli import run_rules
@@ -372,7 +372,64 @@ class UnpackSplit(ast.NodeTransformer):
                 setattr(n, f, self._fix(v))
         return n
 
-TR = {"inlinetemp": InlineTemp, "unpacksplit": UnpackSplit, "renamelocals": RenameLocals, "ifexp2stmt": IfExpAssignToStmt, "chaincmp": ChainCompare, "notin": NotInToNot, "sortkw": SortKeywords, "dict2call": DictLiteralToCall, "isinstsplit": IsinstanceSplit, "fstr2format": FStringToFormat, "pos2kw": PositionalToKeyword, "kw2spread": KwToDictSpread, "comp2loop": CompAssignToLoop, "comp2temp": CompToTemp, "returntemp": ReturnTemp, "early2else": EarlyReturnToElse, "append2aug": AppendToAug, "flipcmp": FlipCompare, "demorgan": DeMorgan, "or2ifexp": OrToIfExp, "swapifelse": SwapIfElse, "isnotnone": IsNotNone, "guard2nested": GuardToNested}
+class MaxMinToIfExp(ast.NodeTransformer):
+    """max(a, b) -> (b if a < b else a), min(a, b) -> (b if b < a else a) for two plain positional arguments that are names / constants /
+    attribute chains (evaluated twice without effect)"""
+    def visit_Call(self, n):
+        self.generic_visit(n)
+        def simple(x):
+            return isinstance(x, (ast.Name, ast.Constant)) or (isinstance(x, ast.Attribute) and simple(x.value))
+        if isinstance(n.func, ast.Name) and n.func.id in ("max", "min") and len(n.args) == 2 and not n.keywords and all(simple(a) for a in n.args):
+            import copy
+            a, b = n.args
+            test = ast.Compare(left=copy.deepcopy(a), ops=[ast.Lt()], comparators=[copy.deepcopy(b)]) if n.func.id == "max" else \
+                ast.Compare(left=copy.deepcopy(b), ops=[ast.Lt()], comparators=[copy.deepcopy(a)])
+            return ast.copy_location(ast.IfExp(test=test, body=copy.deepcopy(b), orelse=copy.deepcopy(a)), n)
+        return n
+
+class RangeToWhile(ast.NodeTransformer):
+    """`for i in range(n): BODY` (n a plain name, no continue / else in the loop, i not assigned in BODY) -> `i = 0; while i < n: BODY; i += 1`"""
+    def _fix(self, body):
+        out = []
+        for st in body:
+            if isinstance(st, ast.For) and not st.orelse and isinstance(st.target, ast.Name) and isinstance(st.iter, ast.Call) and isinstance(st.iter.func, ast.Name) \
+                    and st.iter.func.id == "range" and len(st.iter.args) == 1 and isinstance(st.iter.args[0], ast.Name) and not st.iter.keywords \
+                    and not any(isinstance(x, ast.Continue) for b in st.body for x in ast.walk(b)) \
+                    and not any(isinstance(x, ast.Name) and x.id in (st.target.id, st.iter.args[0].id) and isinstance(x.ctx, ast.Store) for b in st.body for x in ast.walk(b)):
+                i = st.target.id
+                out.append(ast.copy_location(ast.Assign(targets=[ast.Name(id=i, ctx=ast.Store())], value=ast.Constant(value=0)), st))
+                wl = ast.While(test=ast.Compare(left=ast.Name(id=i, ctx=ast.Load()), ops=[ast.Lt()], comparators=[st.iter.args[0]]),
+                               body=list(st.body) + [ast.AugAssign(target=ast.Name(id=i, ctx=ast.Store()), op=ast.Add(), value=ast.Constant(value=1))], orelse=[])
+                out.append(ast.copy_location(wl, st))
+            else:
+                out.append(st)
+        return out
+    def generic_visit(self, n):
+        super().generic_visit(n)
+        for f in ("body", "orelse", "finalbody"):
+            v = getattr(n, f, None)
+            if isinstance(v, list) and v and isinstance(v[0], ast.stmt):
+                setattr(n, f, self._fix(v))
+        return n
+
+class FStringToJoin(ast.NodeTransformer):
+    """f"a:{x}:{y}" whose constant parts are one separator between plain fields -> "<sep>".join([... str(x) ...])"""
+    def visit_FormattedValue(self, n):
+        n.value = self.visit(n.value)
+        return n
+    def visit_JoinedStr(self, n):
+        self.generic_visit(n)
+        vals = n.values
+        if len(vals) < 3 or not all(isinstance(v, ast.FormattedValue) and v.conversion == -1 and v.format_spec is None for v in vals[0::2]) \
+                or not all(isinstance(v, ast.Constant) for v in vals[1::2]) or len(vals) % 2 == 0:
+            return n
+        seps = {v.value for v in vals[1::2]}
+        if len(seps) != 1:
+            return n
+        items = [ast.Call(func=ast.Name(id="str", ctx=ast.Load()), args=[v.value], keywords=[]) for v in vals[0::2]]
+        return ast.copy_location(ast.Call(func=ast.Attribute(value=ast.Constant(value=seps.pop()), attr="join", ctx=ast.Load()), args=[ast.List(elts=items, ctx=ast.Load())], keywords=[]), n)
+
+TR = {"max2ifexp": MaxMinToIfExp, "range2while": RangeToWhile, "fstr2join": FStringToJoin, "inlinetemp": InlineTemp, "unpacksplit": UnpackSplit, "renamelocals": RenameLocals, "ifexp2stmt": IfExpAssignToStmt, "chaincmp": ChainCompare, "notin": NotInToNot, "sortkw": SortKeywords, "dict2call": DictLiteralToCall, "isinstsplit": IsinstanceSplit, "fstr2format": FStringToFormat, "pos2kw": PositionalToKeyword, "kw2spread": KwToDictSpread, "comp2loop": CompAssignToLoop, "comp2temp": CompToTemp, "returntemp": ReturnTemp, "early2else": EarlyReturnToElse, "append2aug": AppendToAug, "flipcmp": FlipCompare, "demorgan": DeMorgan, "or2ifexp": OrToIfExp, "swapifelse": SwapIfElse, "isnotnone": IsNotNone, "guard2nested": GuardToNested}
 which = sys.argv[1]
 overlay = {}
 for dp, dn, fn in os.walk('/repo/src/soundevent'):
